@@ -68,6 +68,10 @@ def events_for(main, rng):
         ev.append((f'D50={v!r}', 'text', ('D50_input', v)))
     for v in [f'{d85 * 1.7:0.3f}', f'{d50 * 0.9:0.3f}', f'{s.Dp * 1000 * 0.6:0.1f}', '9']:
         ev.append((f'D85={v!r}', 'text', ('D85_input', v)))
+    # texts that parse as floats but are not numbers (must be rejected like any other out-of-range entry)
+    for w in ('Dp_input', 'Cv_input', 'rhos_input', 'rhom_input', 'D15_input', 'D50_input', 'D85_input'):
+        ev.append((f"{w.split('_')[0]}='nan'", 'text', (w, 'nan')))
+    ev.append(("Cv='inf'", 'text', ('Cv_input', 'inf')))
     for b in ('Dp_up_button', 'Dp_down_button', 'D50_up_button', 'D50_down_button', 'Cv_up_button', 'Cv_down_button'):
         ev.append((b, 'click', b))
     ev.append(('fluid=fresh', 'radio', 0))
@@ -314,11 +318,14 @@ def monitor(ctx, extended=False):
         scripts.append(['units=US', "rhos='3.1'", f'pipeline={nm!r}', 'D50_up_button', 'units=SI'] + [f'pipeline={x!r}' for x in other])
     # grading pushed towards the limits of its boxes by D50 entries (D15 and D85 follow D50 in proportion): D15 must stay >= 0.04 mm, D85 <= Dp / 2
     for raw in ([('D15_input', '0.170'), ('D50_input', '0.200'), ('D50_input', '0.190')],
-                [('D50_input', '2.700'), ('D50_input', '7.300'), ('D50_input', '19.800'), ('D50_input', '53.800'), ('D50_input', '124.000')]):
+                [('D50_input', '2.700'), ('D50_input', '7.300'), ('D50_input', '19.800'), ('D50_input', '53.800'), ('D50_input', '124.000')],
+                [('D15_input', '0.170'), ('D50_input', '0.260'), ('click', 'D50_down_button'), ('click', 'D50_down_button')],
+                [('Cv_input', 'nan'), ('D50_input', 'nan'), ('rhos_input', 'nan'), ('Dp_input', 'nan')]):
         main = new_session()
         log = []
         for w, txt in raw:
-            if not step(ctx, main, (f"{w.split('_')[0]}={txt!r}", 'text', (w, txt)), log):
+            ev_ = (txt, 'click', txt) if w == 'click' else (f"{w.split('_')[0]}={txt!r}", 'text', (w, txt))
+            if not step(ctx, main, ev_, log):
                 break
             k += 1
     for sc in scripts:
